@@ -51,4 +51,18 @@ theorem witness_within : WithinCatalogue witnessOracle := by
     | falsy => exact Or.inl (by simp [SiteOut.cls])
     | raises e => exact Or.inl (by simp [SiteOut.cls])
 
+/-- a translated scalar loader always answers: it returns, raises a LoadError or lets another
+    exception escape; the fuel-exhaustion outcome `diverge` is never produced by a leaf -/
+theorem scalarLoadGen_answers (oracle : SiteOracle) (strict : Bool) (s : String) (d : Val) :
+    scalarLoadGen oracle strict s d ≠ .diverge := by
+  unfold scalarLoadGen
+  cases closureOf s strict with
+  | none => simp
+  | some pc =>
+    simp only
+    cases runClosure (closureEnv oracle strict s d) pc.1 with
+    | cont => simp [resToOutcome]
+    | ret v => simp [resToOutcome]
+    | raised e => simp only [resToOutcome]; split <;> simp
+
 end Adaptix.Morph
